@@ -352,8 +352,11 @@ def run_geo(inst, cf, conc, ops=None, unique=False, full=True, snapper=None):
         last = ([], 0)
         for op, arg in ops:
             if op in ('cwd', 'rematch') and (m.lattice is None or m.early_stop_idx is None or m.early_stop_idx == 0
-                                             or not cf['only_edges'] or cf['max_dist'] is None):
-                continue        # continue_with_distance is documented for an early-stopped match with edge states
+                                             or not cf['only_edges'] or cf['max_dist'] is None or not last[0]):
+                # continue_with_distance is documented for an early-stopped match with edge states.  (`not last[0]`:
+                # a fresh match() that returns ([], 0) leaves `early_stop_idx` at the value of an EARLIER call on the
+                # same matcher object, so the attribute alone does not say that the last call stopped early.)
+                continue
             o = {'op': op, 'arg': arg, 'w': W, 'unique': unique, 'exc': ''}
             try:
                 if op == 'cwd':
